@@ -245,10 +245,26 @@ def r4_reclass(ck, cx):
         ck.ob('R4', h.qn, 'sub-function dispatch re-classes the decoded message', len(sets) == 1, detail='no-reclass', loc=cx.floc(h))
 
 
+def r4_dispatch_reaches_every_code(ck, cx):
+    """decode(encode(m)) gives back the class of m only if the sub-function dispatch is reached for every
+    sub-function code, 0 included (shared with C01 R4)"""
+    from .c01 import r4_dispatch
+    sub = type(ck)(ck.pid, ck.tier)
+    r4_dispatch(sub, cx)
+    keep = ('sub-dispatch-truthiness', 'sub-lookup-key', 'no-reclass-path')
+    for o in sub.obligations:
+        if 'sub-function' in str(o[2]) or 're-class' in str(o[2]):
+            ck.obligations.append(('R4',) + tuple(o[1:]))
+    for f in sub.findings:
+        if f.detail.startswith(keep):
+            ck.finding('R4', f.construct, f.detail, f.loc, f.message + ' — decode(encode(m)) no longer returns the class of m')
+
+
 def run(ck, tier):
     cx = Ctx()
     ck.guard(r1_agreement, ck, cx)
     ck.guard(r2_r3_purity, ck, cx)
     ck.guard(r4_reclass, ck, cx)
+    ck.guard(r4_dispatch_reaches_every_code, ck, cx)
     ck.assume('equality of values through struct is trusted; bit lists round-trip up to zero padding as a consequence of pack_bitstring/unpack_bitstring (trusted base)')
     return cx.idx
